@@ -73,15 +73,21 @@ class C09(Property):
             "bases, both strands, strand 0/None rarely, shuffled exon order rarely) laid out in transcription order on a "
             "ring and cut at a random origin (so ~35% span the origin, exons themselves may be split by it) x protein "
             "ranges [s,e) biased to exon borders and to the invalid edges (s=-1, s>=e, e=total+1) x nucleotide offsets x "
-            "codon_start 0..4 with undo x leader/tail lengths x TTA codon offsets; a random DNA string per case; "
+            "codon_start 0..4 with undo (int and text forms) x leader/tail lengths (positioned, and written out + re-read via "
+            "Prepeptide.from_biopython + positioned again) x TTA codon offsets x partial genes (fuzzy </> on any part edge, "
+            "ends beyond the product) x pfam/motif/domain feature creation on a real record; a random DNA string per case; "
             "thorough/deep: every gene with <=3 exons on a 1-grid of total length <=9 (+ all cuts of a ring of 12) x all "
             "ranges; non-trivial = multi-exon or origin-spanning gene with a valid range; distinct by canonical input")
     TRUSTED = ["Biopython: SimpleLocation/CompoundLocation.extract concatenates parts in list order and reverse-complements "
                "reverse parts (compared on every case with the positions `bases` lists), Seq.translate, len(), FeatureLocation "
                "constructor rejecting end < start",
-               "fuzzy positions (<5, >9), mixed-strand compounds and string-valued codon_start are not generated",
-               "convert_protein_position_to_dna on compound locations is modelled and compared but proved only for simple "
-               "locations (after fix D8 it is no longer used for compound locations)"]
+               "mixed-strand compounds, non-ASCII digits / the empty string as codon_start are not generated; the fuzziness "
+               "of the edges of returned locations is not compared (coordinates are)",
+               "convert_protein_position_to_dna on compound locations is proved for the standard exon order of either "
+               "strand; for other orders (origin-spanning, overlapping exons) it is modelled and compared only (since fix D8 "
+               "it is no longer used for compound locations)",
+               "Prepeptide.from_biopython on the unrepaired tree: part structure of the rebuilt location is not compared "
+               "(bases and strand are; the structure is KF-C10-reverse-prepeptide-location)"]
 
     # ------------------------------------------------------------------ generators
     @staticmethod
